@@ -59,10 +59,6 @@ function isSetInstance(value: unknown): value is Set<unknown> {
 }
 
 function deepmergeConstructor(options: any) {
-  function isNotPrototypeKey(value: any) {
-    return value !== "constructor" && value !== "prototype" && value !== "__proto__";
-  }
-
   function cloneArray(value: any) {
     let i = 0;
     const il = value.length;
@@ -83,8 +79,9 @@ function deepmergeConstructor(options: any) {
     const targetKeys = getKeys(target);
     let i, il, key;
     for (i = 0, il = targetKeys.length; i < il; ++i) {
-      //@ts-ignore
-      isNotPrototypeKey((key = targetKeys[i])) && (result[key] = clone(target[key]));
+      // (own keys named "constructor", "prototype" or "__proto__" are data like any other key:
+      // they are defined on the fresh result, never assigned through its prototype chain)
+      setOwnProperty(result, (key = targetKeys[i]), clone(target[key]));
     }
     return result;
   }
@@ -172,34 +169,27 @@ function deepmergeConstructor(options: any) {
     const sourceKeys = getKeys(source);
     let i, il, key;
     for (i = 0, il = targetKeys.length; i < il; ++i) {
-      isNotPrototypeKey((key = targetKeys[i])) &&
-        sourceKeys.indexOf(key) === -1 &&
-        // @ts-ignore
-        (result[key] = clone(target[key]));
+      (key = targetKeys[i]), sourceKeys.indexOf(key) === -1 && setOwnProperty(result, key, clone(target[key]));
     }
 
     for (i = 0, il = sourceKeys.length; i < il; ++i) {
-      if (!isNotPrototypeKey((key = sourceKeys[i]))) {
-        continue;
-      }
-
-      if (key in target) {
+      key = sourceKeys[i];
+      // only what the target carries itself counts: "toString" or "constructor" are `in` every
+      // object through Object.prototype
+      if (Object.prototype.hasOwnProperty.call(target, key)) {
         if (targetKeys.indexOf(key) !== -1) {
           if (
             cloneProtoObject &&
             isMergeableObject(source[key]) &&
             Object.getPrototypeOf(source[key]) !== JSON_PROTO
           ) {
-            // @ts-ignore
-            result[key] = cloneProtoObject(source[key]);
+            setOwnProperty(result, key, cloneProtoObject(source[key]));
           } else {
-            // @ts-ignore
-            result[key] = _deepmerge(target[key], source[key]);
+            setOwnProperty(result, key, _deepmerge(target[key], source[key]));
           }
         }
       } else {
-        // @ts-ignore
-        result[key] = clone(source[key]);
+        setOwnProperty(result, key, clone(source[key]));
       }
     }
     return result;
